@@ -1342,8 +1342,9 @@ def to_str(s, dps, strip_zeros=True, min_fixed=None, max_fixed=None,
                 digits += "0"
 
     if exponent == 0 and dps and not show_zero_exponent: return sign + digits
-    if exponent >= 0: return sign + digits + "e+" + str(exponent)
-    if exponent < 0: return sign + digits + "e" + str(exponent)
+    # (numeral: str() refuses integers of more than a few thousand digits)
+    if exponent >= 0: return sign + digits + "e+" + numeral(exponent)
+    if exponent < 0: return sign + digits + "e" + numeral(exponent)
 
 def str_to_int(x, base=10):
     """int(x, base) for a digit string of any length. A long string is
